@@ -381,6 +381,17 @@ def triggers (keep : Bool) (ts : List XTok) : List String :=
 
 /-! ## the property as a decidable predicate on (input tokens, output tokens) -/
 
+/-- raw character data runs of a token stream: the data of consecutive text tokens (comments in between
+vanish) concatenated; any other token ends the run -/
+def rawRuns : List Char → List XTok → List (List Char)
+  | acc, [] => [acc]
+  | acc, .text d :: r => rawRuns (acc ++ d) r
+  | acc, .comment _ :: r => rawRuns acc r
+  | acc, _ :: r => acc :: rawRuns [] r
+
+/-- some character data run contains the literal sequence `]]>` (not well-formed, §2.4) -/
+def rawCdEnd (ts : List XTok) : Bool := (rawRuns [] ts).any hasCdEnd
+
 def wfOutTok : XTok → Bool
   | .text d => wfChars d
   | .attr _ v => wfAttr v
@@ -411,7 +422,7 @@ def holds (keep : Bool) (i o : List XTok) : List String :=
   let isAttr : Mark → Bool := fun m => match m with | .attr _ _ => true | _ => false
   let isPi : Mark → Bool := fun m => match m with | .pi _ => true | .piEnd => true | _ => false
   let isDt : Mark → Bool := fun m => match m with | .doctype _ => true | _ => false
-  (if o.all wfOutTok && !hasCdEndD (infoset o) && (!nest [] i || nest [] o) then [] else ["wf"]) ++
+  (if o.all wfOutTok && !rawCdEnd o && (!nest [] i || nest [] o) then [] else ["wf"]) ++
   (if projTags ci == projTags co then [] else ["struct"]) ++
   (if projNeutral isAttr ci == projNeutral isAttr co then [] else ["attr"]) ++
   (if projNeutral isPi ci == projNeutral isPi co then [] else ["pi"]) ++
